@@ -619,8 +619,6 @@ def run(ctx):
     vclasses = {}
     for sig, _what, _path in ctx.violations:
         vclasses[sig.get('class')] = vclasses.get(sig.get('class'), 0) + 1
-    if vclasses:
-        print('C19 violation classes: %s' % sorted(vclasses.items()))
     ctx.extra['violation_classes'] = vclasses
     ctx.extra['allowed_sets_reached'] = sorted(classes)
     ctx.extra['random_observed_classes'] = obs_hist
